@@ -384,6 +384,14 @@ def run_property(a, prop, scratch, t0):
         o, m = kanirun.collect(prop, snap, scratch, a.tier, a.only)
         obls += o
         meta.setdefault('kani', m)
+    if a.tier == 'thorough' and not a.only:
+        meta['self_test'] = self_test(prop, snap, scratch, pl)
+        for st in meta['self_test']:
+            if st['expected_detection'] and not st['detected']:
+                o = Obl('%s.T.selftest.%s' % (prop, st['seed']), 'selftest', 'seeded change', [prop], bound='self-test of the machinery, not an obligation of the property')
+                o.status = 'undecided'
+                o.detail = 'machinery regression: the kept seeded change %s was detected by the Verus/syntactic engines when it was recorded and is not any more' % st['seed']
+                obls.append(o)
     # ---- verdict -----------------------------------------------------------------------------------------------
     known = load_known()
     violations, undecided, kf_lines = [], [], []
@@ -422,6 +430,46 @@ def run_property(a, prop, scratch, t0):
         prop, a.tier, len(obls), len(n_proof), len(obls) - len(n_proof), sum(o.status == 'discharged' for o in obls),
         sum(o.status == 'failed' for o in obls), len(kf_lines), len(undecided), time.time() - t0))
     return rc
+
+
+def self_test(prop, snap, scratch, pl):
+    """thorough tier: every kept seeded change of this property that the Verus/syntactic engines caught when it was recorded is
+    applied to a scratch copy and must still fail one of their obligations (guards against contracts that silently got weaker)"""
+    out = []
+    for mpath in sorted(glob.glob(os.path.join(VERIF, 'seeded', '*', 'meta.json'))):
+        m = json.load(open(mpath))
+        if m.get('breaks_property') != prop:
+            continue
+        names = [part.split('=', 1)[1] for l in m.get('check_output', []) if l.startswith('VIOLATION') for part in l.split() if part.startswith('obligation=')]
+        expected = any(('.V.' in n or '.S.' in n) for n in names)
+        d = os.path.join(scratch, 'st_' + m['seed'])
+        shutil.copytree(snap, d)
+        ap = subprocess.run(['git', 'apply', '--unsafe-paths', '--directory=' + d, os.path.join(os.path.dirname(mpath), 'patch.diff')],
+                            cwd='/', capture_output=True, text=True)
+        if ap.returncode != 0:
+            ap = subprocess.run(['patch', '-p1', '-s', '-i', os.path.join(os.path.dirname(mpath), 'patch.diff')], cwd=d, capture_output=True, text=True)
+        rec = {'seed': m['seed'], 'expected_detection': expected, 'detected': False, 'failed_obligations': []}
+        if ap.returncode != 0:
+            rec['error'] = 'patch does not apply to the current tree'
+            rec['expected_detection'] = False
+            out.append(rec)
+            continue
+        obls = []
+        sc2 = os.path.join(scratch, 'stv_' + m['seed'])
+        os.makedirs(sc2, exist_ok=True)
+        if 'verus_units' in pl['engines']:
+            o, _ = collect_verus_units(prop, d, sc2)
+            obls += o
+        if 'syntactic' in pl['engines']:
+            import syntactic
+            obls += syntactic.collect(prop, d)
+        known = load_known()
+        bad = [o.id for o in obls if o.status == 'failed' and not match_known(o, known, prop)]
+        rec['detected'] = bool(bad)
+        rec['failed_obligations'] = bad[:6]
+        out.append(rec)
+        shutil.rmtree(d, ignore_errors=True)
+    return out
 
 
 def write_evidence(prop, a, obls, meta, violations, undecided, kf_lines, wall, pl):
@@ -463,6 +511,7 @@ def write_evidence(prop, a, obls, meta, violations, undecided, kf_lines, wall, p
             'known_findings_open': kf_lines,
             'undecided': [o.id for o in undecided],
             'kani': meta.get('kani', {}),
+            'self_test_seeded_changes': meta.get('self_test', []),
             'exhaustive': False,
         },
         'assumptions': plan.ASSUMPTIONS + pl.get('assumptions_extra', []) + sorted(set(meta.get('assumption_scan', []))),
